@@ -8,6 +8,9 @@
 package ev
 
 import (
+	"github.com/lindb/common/pkg/logger"
+	"go.uber.org/zap/zapcore"
+
 	"encoding/json"
 	"fmt"
 	"hash/fnv"
@@ -155,6 +158,13 @@ func Flush() {
 
 // Main wraps testing.M so that evidence is flushed when the process ends.
 func Main(m *testing.M) {
+	// lindb logs every commit / compaction / deletion at info level: a thorough shard writes gigabytes of it.
+	// Keep warnings and errors; VERIF_LOG=info (or debug) restores the full log for a replay.
+	if lvl := os.Getenv("VERIF_LOG"); lvl != "" {
+		_ = logger.RunningAtomicLevel.UnmarshalText([]byte(lvl))
+	} else if logger.RunningAtomicLevel.Level() < zapcore.WarnLevel {
+		logger.RunningAtomicLevel.SetLevel(zapcore.WarnLevel)
+	}
 	code := m.Run()
 	Flush()
 	os.Exit(code)
